@@ -971,11 +971,13 @@ func (g *genCtx) execBoth(sb *coin.SignedBlock) {
 	lenBefore := chainLen(g.node("P"))
 	// one time in four the first attempt fails after the unspent pool has processed the block (injected history fault)
 	// and is rolled back; the block is then executed for real
-	if g.r.Chance(12) {
+	// (not under the crash profile: its explorer counts the node's commits, and the injected fault is not one of them)
+	faults := os.Getenv("VERIF_PROFILE") != "c08"
+	if faults && g.r.Chance(12) {
 		g.emit("execfault P " + hx)
 	}
 	g.emit("exec P " + hx)
-	if g.r.Chance(25) {
+	if faults && g.r.Chance(25) {
 		g.emit("execfault F " + hx)
 	}
 	g.emit("exec F " + hx)
